@@ -121,7 +121,7 @@ def gen_preload(rng):
 
 
 def gen(ctx, rng):
-    case = pc.gen_panel_case(rng, max_mn=ctx.scale(3, 5))
+    case = pc.gen_panel_case(rng, max_mn=ctx.scale(4, 5))
     case['pad'] = rng.choice([0, 0, 3, 7])
     case['row0'] = rng.choice([0, case['pad']]) if case['pad'] else 0
     case['col0'] = case['row0']      # a panel occupies the same range of rows and columns
